@@ -286,17 +286,22 @@ Definition expand_core (s : schema) (rows : list row) : list (row * bool) :=
   map fst (if mutated then cat
            else flat_map (fun l => filter (fun e => e_lab e =? l) cat) (uniq_from [] (map e_lab ex))).
 
-(* expand_additional_doses(model, flag=True): records with the EXPANDED flag *)
+(* df = model.dataset.reset_index(drop=True) *)
+Fixpoint relab_from (k : Z) (rows : list row) : list row :=
+  match rows with
+  | [] => []
+  | r :: tl => set_lab r k :: relab_from (k + 1) tl
+  end.
+
+(* expand_additional_doses(model, flag=True): records with the EXPANDED flag.  The working copy gets a
+   fresh default index first (fix 96db805), so the kind of index of the dataset does not matter. *)
 Definition expand_impl (d : dataset) : res (list (row * bool)) :=
   let s := ds_sch d in
   if negb (has_addl s && has_ii s) then Ok (map (fun r => (r, false)) (ds_rows d))   (* model returned as is *)
-  else if negb (range_index s) && existsb (fun r => negb (r_addl r =? 0)) (ds_rows d)
-       then Err ValueError     (* a row was exploded and the index is an explicit Index: cannot reindex *)
-  else Ok (relabel (expand_core s (ds_rows d))).
+  else Ok (relabel (expand_core s (relab_from 0 (ds_rows d)))).
 
-(* df.apply(fn, axis=1) turns every column into float64 *)
-Definition expand_id_is_int (d : dataset) : bool :=
-  let s := ds_sch d in if has_addl s && has_ii s then false else id_is_int s.
+(* df.apply(fn, axis=1) turns every column into float64; the original dtypes are restored (fix 64ec1fd) *)
+Definition expand_id_is_int (d : dataset) : bool := id_is_int (ds_sch d).
 
 (* ------------------------------------------------------------------ add_time_after_dose *)
 Definition with_rows (d : dataset) (rows : list row) (rng : bool) : dataset :=
@@ -326,10 +331,21 @@ Definition tad_values (sorted : list trow) : list Z :=
   group_cumsum (fun a b => same_period (fst a) (fst b)) snd
                (combine sorted (group_diff same_period t_time sorted)).
 
+(* df['_POS'] = np.arange(len(df)) before the sort, sort_values(by='_POS') after the TAD computation
+   (fix 8de2b00): the records come back in the order of the working frame *)
+Definition prow : Type := (trow * Z)%type.           (* record with _DOSEID, _POS *)
+Definition p_pos (x : prow) : Z := snd x.
+
+Definition tad_sorted_pos (fr : list (row * bool)) (dids : list Z) : list prow :=
+  let F := combine fr dids in
+  group_concat (fun x : prow => t_id (fst x)) (isort_by (fun x : prow => t_did (fst x)))
+               (combine F (zseq 0 (length F))).
+
 Definition tad_core (fr : list (row * bool)) (dids : list Z) : list (row * Z) :=
-  let sorted := tad_sorted fr dids in
-  relabel (map (fun p => (fst (fst (fst p)), snd p))
-               (filter (fun p => negb (snd (fst (fst p)))) (combine sorted (tad_values sorted)))).
+  let sorted := tad_sorted_pos fr dids in
+  let back := isort_by (fun x : prow * Z => p_pos (fst x)) (combine sorted (tad_values (map fst sorted))) in
+  relabel (map (fun p : prow * Z => (fst (fst (fst (fst p))), snd p))
+               (filter (fun p : prow * Z => negb (snd (fst (fst (fst p))))) back)).
 
 Definition tad_impl (d : dataset) : res (list (row * Z)) :=
   let s := ds_sch d in
@@ -349,7 +365,8 @@ Definition tad_impl (d : dataset) : res (list (row * Z)) :=
 (* ------------------------------------------------------------------ get_cmt / get_admid *)
 (* what the functions read from the model's compartmental system *)
 Record minfo := mkMinfo {
-  mi_dosing : list (Z * Z * bool)      (* dosing_compartments: number, doses[0].admid, is central *)
+  mi_dosing : list (Z * Z * bool);     (* dosing_compartments: number, doses[0].admid, is central *)
+  mi_central : Z                       (* number of the central compartment *)
 }.
 
 Fixpoint zreplace (m : list (Z * Z)) (v : Z) : Z :=
@@ -374,13 +391,10 @@ Definition cmt_impl (mi : minfo) (d : dataset) : res (list (Z * Z)) :=
   else
     let remap := dict_of (map (fun c : Z * Z * bool => if snd c then (2, fst (fst c)) else (1, fst (fst c)))
                               (mi_dosing mi)) [] in
-    match filter (fun c : Z * Z * bool => snd c) (mi_dosing mi) with
-    | [] => Err UnboundLocalError                         (* central_number never assigned *)
-    | (cn, _, _) :: _ =>
-        Ok (map (fun re => let '(r, ev) := re in
-                           (r_lab r, if snd ev =? 0 then cn else zreplace remap (r_admid r)))
-                (combine (ds_rows d) (evid_impl d)))
-    end.
+    let cn := mi_central mi in                            (* central_number (fix 53e373d) *)
+    Ok (map (fun re => let '(r, ev) := re in
+                       (r_lab r, if snd ev =? 0 then cn else zreplace remap (r_admid r)))
+            (combine (ds_rows d) (evid_impl d))).
 
 (* the loop of get_admid over (evid, adm, ID): state = (current_subject, current_admin) *)
 Fixpoint admid_loop (cur_subj cur_adm : Z) (l : list (Z * Z * Z)) : list Z :=
@@ -388,7 +402,7 @@ Fixpoint admid_loop (cur_subj cur_adm : Z) (l : list (Z * Z * Z)) : list Z :=
   | [] => []
   | (ev, a, subj) :: tl =>
       if cur_subj =? subj then
-        if ev =? 1 then a :: admid_loop cur_subj a tl
+        if (ev =? 1) || (ev =? 4) then a :: admid_loop cur_subj a tl      (* event in (1, 4): fix 1fa817f *)
         else cur_adm :: admid_loop cur_subj cur_adm tl
       else a :: admid_loop subj a tl
   end.
@@ -616,7 +630,7 @@ Definition g_addl_nonneg (rows : list row) : bool := forallb (fun r => 0 <=? r_a
 
 Definition guard_expand_order (d : dataset) : bool :=
   let s := ds_sch d in
-  g_labels_range (ds_rows d) && g_ids_ascending (ds_rows d) && g_chrono (ann s (ds_rows d)).
+  g_ids_ascending (ds_rows d) && g_chrono (ann s (ds_rows d)).
 
 (* per individual, the values are nondecreasing along the list *)
 Definition g_sorted_within {A : Type} (idf val : A -> Z) (l : list A) : bool :=
